@@ -8,7 +8,7 @@
 // OB: ob_counting_reinit tier=thorough unwind=82 timeout=1500 solver=cadical bounds="CountingBarrier: region of T=2 x 1 phase, reinit(3), region of T=3 x 1 phase" desc="re-initialisation to a different participant count between regions"
 // OB: ob_mcs_T2 tier=thorough unwind=82 timeout=1500 solver=cadical bounds="MCSBarrier: T=2 x 2 phases, 70 steps" desc="phase separation, no deadlock"
 // OB: ob_mcs_T3 tier=attic unwind=82 timeout=3000 solver=cadical bounds="MCSBarrier: T=3 x 2 phases, 80 steps" desc="phase separation, no deadlock"
-// OB: ob_dissem_T2 tier=thorough unwind=82 timeout=900 solver=cadical bounds="DisseminationBarrier: T=2 x 3 phases (both parities), 64 steps" desc="phase separation, no deadlock"
+// OB: ob_dissem_T2 tier=attic unwind=82 timeout=900 solver=cadical bounds="DisseminationBarrier: T=2 x 3 phases (both parities), 64 steps" desc="phase separation, no deadlock"
 // OB: ob_dissem_T3 tier=attic unwind=82 timeout=3000 solver=cadical bounds="DisseminationBarrier: T=3 x 2 phases, 50 steps" desc="phase separation, no deadlock"
 // OB: ob_single_thread tier=thorough unwind=82 timeout=300 bounds="T=1, 3 phases, Counting/MCS/Dissemination" desc="degenerate participant count: wait() returns"
 #define S_COUNT2 40
